@@ -114,7 +114,8 @@ where
         ptr::slice_from_raw_parts_mut(bytes as *mut u8, meta) as *mut Self
     }
     unsafe fn ptr_to_bytes(this: *mut Self) -> *mut [u8] {
-        let len = Self::DATA_OFFSET + slice_ptr_len(this as *mut [T]) * T::SIZE;
+        // Same as `size_of_val`: the tail up to the next multiple of `ALIGN` belongs to the value too.
+        let len = ceil_mul(Self::DATA_OFFSET + slice_ptr_len(this as *mut [T]) * T::SIZE, Self::ALIGN);
         ptr::slice_from_raw_parts_mut(this as *mut u8, len)
     }
 }
